@@ -4,7 +4,10 @@ use crate::util::address::Address;
 use crate::util::constants::BYTES_IN_PAGE;
 use crate::util::conversions::*;
 use std::ops::Range;
+#[cfg(not(mmtk_verif))]
 use std::sync::{Mutex, MutexGuard};
+#[cfg(mmtk_verif)]
+use crate::util::verif::sync::{Mutex, MutexGuard};
 
 use crate::util::alloc::embedded_meta_data::*;
 use crate::util::heap::layout::vm_layout::LOG_BYTES_IN_CHUNK;
